@@ -158,13 +158,18 @@ package parsley
 //@ ghost GhostLo Pos
 //@ ghost GhostHi Pos
 
+//@ -- GhostSpare(a): somebody holds the permission to append in place into the spare capacity of array a.
+//@ -- Created (true) by whoever allocates a list array, required by every in-place append, cleared by Memoize
+//@ -- when it publishes a list in the cache; arrays of cached lists never carry it.
+//@ ghostfun GhostSpare(a int) bool
+
 //@ -- spec-level views of interface values, defined per concrete type by `specmethod` (heap-versioned)
 //@ -- the library's terminals only work with *text.Reader (they type-assert it); its type id is fixed by an axiom in package text
 //@ abstract func TextReaderType() int
 //@ virtual func ReaderOK(r Reader) bool
 //@ virtual func NodeOK(n Node) bool
-//@ virtual func ListSpare(n Node) int
-//@ virtual func ListArr(n Node) int
+//@ virtual func ListSpare(n Node) int default 0
+//@ virtual func ListArr(n Node) int default 0
 //@ -- the alternatives a result stands for: a list of alternatives is its elements, any other node is itself
 //@ virtual func NAlts(n Node) int default 1
 //@ virtual func Alt(n Node, k int) Node default n
@@ -259,7 +264,7 @@ package parsley
 
 //@ -- cache invariant: every stored result satisfies, for its own position, what the Parser contract
 //@ -- promises of a returned result (so that a cache hit may be returned as is)
-//@ pure func StoredOK(ctx *Context, res *Result, pos Pos) bool = res != nil && data.Inv(res.CurtailingParsers) && (res.Node != nil ==> NodeOK(res.Node) && ListSpare(res.Node) == 0 && EndsWithin(res.Node, pos, Eof(ctx.reader, pos))) && (res.Error != nil ==> pos <= res.Error.Pos() && res.Error.Pos() <= Eof(ctx.reader, pos) && res.Error.Pos() <= GhostMaxFail) && (res.Node == nil && res.Error == nil ==> GhostCurtailed)
+//@ pure func StoredOK(ctx *Context, res *Result, pos Pos) bool = res != nil && data.Inv(res.CurtailingParsers) && (res.Node != nil ==> NodeOK(res.Node) && ListSpare(res.Node) == 0 && !GhostSpare(ListArr(res.Node)) && EndsWithin(res.Node, pos, Eof(ctx.reader, pos))) && (res.Error != nil ==> pos <= res.Error.Pos() && res.Error.Pos() <= Eof(ctx.reader, pos) && res.Error.Pos() <= GhostMaxFail) && (res.Node == nil && res.Error == nil ==> GhostCurtailed)
 //@ pure func WfCache(ctx *Context) bool = WfCacheShape(ctx.resultCache) && forall i int, p Pos :: ctx.resultCache[i][p] != nil ==> InInput(ctx.reader, p) && StoredOK(ctx, ctx.resultCache[i][p], p)
 
 //@ -- PC: what every Parser promises and may rely on
@@ -269,14 +274,15 @@ package parsley
 //@   ensures  [ctx] WfCtx(ctx)
 //@   ensures  [cache] WfCache(ctx)
 //@   ensures  [PC1;C04] n == nil && err == nil ==> GhostCurtailed
-//@   ensures  [PC2;C07] n != nil ==> NodeOK(n) && (ListSpare(n) == 0 || freshid(ListArr(n)))
+//@   ensures  [PC2;C07] n != nil ==> NodeOK(n) && (ListSpare(n) == 0 || (freshid(ListArr(n)) && GhostSpare(ListArr(n))))
+//@   ensures  [spare-frame;C07] forall a int :: !freshid(a) && old(GhostSpare(a)) ==> GhostSpare(a)
 //@   ensures  [PC3;C02] n != nil ==> EndsWithin(n, pos, Eof(ctx.reader, pos))
 //@   ensures  [PC3e;C08] err != nil ==> pos <= err.Pos() && err.Pos() <= Eof(ctx.reader, pos)
 //@   ensures  [cp] data.Inv(cp)
 //@   ensures  [PC6;C06] err != nil ==> err.Pos() <= GhostMaxFail
 //@   ensures  [mono] (old(GhostCurtailed) ==> GhostCurtailed) && GhostMaxFail >= old(GhostMaxFail) && GhostCalls > old(GhostCalls)
 //@   ensures  [floor;C02] GhostFloorPos == old(GhostFloorPos) && same(GhostFloorLrc, old(GhostFloorLrc))
-//@   assigns  ctx.err, ctx.callCount, maps[ResultCache](), maps[map[Pos]*Result](), maps[map[string]*regexp.Regexp](), GhostCurtailed, GhostMaxFail, GhostCalls, GhostFloorPos, GhostFloorLrc, GhostLo, GhostHi
+//@   assigns  ctx.err, ctx.callCount, maps[ResultCache](), maps[map[Pos]*Result](), maps[map[string]*regexp.Regexp](), GhostCurtailed, GhostMaxFail, GhostCalls, GhostFloorPos, GhostFloorLrc, GhostLo, GhostHi, GhostSpare
 //@   ensures  [window] GhostLo == old(GhostLo) && GhostHi == old(GhostHi)
 //@   ghost_entry GhostLo = pos
 //@   ghost_entry GhostHi = Eof(ctx.reader, pos)
